@@ -528,6 +528,8 @@ class Configuration(_Configuration):
         self._previous_neighbors = {}
 
     def _commit_reload(self) -> None:
+        # the whole file is accepted: the neighbors may now touch the RIB they share with the running sessions
+        self.neighbor.commit()
         self.neighbors = self.neighbor.neighbors
         # Process change detection is handled in Processes.start() which compares
         # old vs new config and only restarts processes that actually changed.
